@@ -4,7 +4,8 @@ import read_common as rc
 ID = "C01"
 LEVEL = "proof"
 generate = rc.generate
-COQ_TARGETS = ["Props/Properties_C01.vo", "Extract/ExtractCore.vo"] + l0_common.COQ_TARGETS
+COQ_TARGETS = ["Props/Properties_C01.vo", "Extract/ExtractCore.vo", "Frame/FramePackedSafe.vo"] + l0_common.COQ_TARGETS
+EXTRA_OBLIGATIONS = ["Frame/FramePackedSafe.v:pdecode_n_then_read_safe_any"]
 PROPS_FILES = ["Props/Properties_C01.v"] + l0_common.PROPS_FILES
 RUNS = [rc.READ_RUN] + l0_common.RUNS
 EXPLANATION = ("Theorems: for every message (any number of segments, any lengths up to 2^32-8, any bytes) and any limits, "
